@@ -132,6 +132,15 @@ def forbidden_scan(extra_dirs=(), only=None):
 def coq_build(targets=None, timeout=3000):
     """Incremental .vo build of /verif/coq (full, or just the given .vo targets and what
     they depend on). Returns (ok, log)."""
+    # fast path without the lock: nothing to rebuild for these targets (the usual case of a check on a
+    # built tree; lets checks of unrelated properties run while a long compilation holds the lock)
+    vs = coq_sources()
+    proj = "-Q . Verif\n" + "\n".join(vs) + "\n"
+    pf = os.path.join(COQ, "_CoqProject")
+    if targets and os.path.exists(os.path.join(COQ, "Makefile")) and os.path.exists(pf) and open(pf).read() == proj:
+        rc, out = sh(["make", "-q"] + list(targets), cwd=COQ, timeout=300)
+        if rc == 0:
+            return True, "up to date"
     with Lock("coq"):
         vs = coq_sources()
         proj = "-Q . Verif\n" + "\n".join(vs) + "\n"
